@@ -90,10 +90,11 @@ def run_case(scn, desc, res, nontrivial=True):
         # with subkeys included)
         res.count("honest_theorem_applies")
         res.evaluations += 1
-        if honest.get("result") != i.get("result"):
+        pred_log = [c[4] if len(c) > 4 else "?" for c in (honest.get("trace") or [])]
+        if honest.get("result") != i.get("result") or (i.get("log") is not None and pred_log != i.get("log")):
             res.fail("disagree", replayable(scn, dict(desc, honest_theorem=True)),
                      {"op": "honest_check", "why": "prediction of honest_chain_verifies differs from the implementation",
-                      "impl": short(i), "predicted": honest.get("result")})
+                      "impl": short(i), "predicted": honest.get("result"), "predicted_log": pred_log})
     res.case({"desc": desc, "impl": short(i), "model": short(m)}, nontrivial, agreed)
     res.count("impl_" + ("accept" if accepted(i) else (i["result"]["err"] if i.get("load") == "ok" else "load_error")))
     if not agreed:
